@@ -77,7 +77,8 @@ def check_case(acc, chain_l, locking, load, init, sched, overload=False):
     acc.executions += 1
     if info['error']:
         acc.violation(f'C01/run-error/{info["error"][0]}', 'simulation runs', case, {'error': info['error']})
-        return
+        if not info['segments'] and not len(m.pt.time):
+            return
     chain = sim.chain_ref(spec)
     # ratio attribute vs reference
     for i in range(1, chain.n):
